@@ -9,10 +9,18 @@ CHECKS = {
    technique='property-based testing: generated block trees x arrival schedules on real nodes, reference-model oracle (heaviest valid chain, monotone tip, orphan accounting), permutation metamorphism, node-thread panic recorder',
    text='Random block trees (forks, epoch-boundary difficulty changes, uncles, commits, contextually/structurally invalid blocks) are built by an independent reference model and delivered to fresh real nodes under generated arrival orders (out-of-order, duplicates, sync submit pipeline or async bursts); after every burst a FIFO barrier and the oracle. Exploration is the right level: the quantifier (trees x permutations x interleavings) is unbounded and only sampled; thread interleavings are not owned by the harness.',
    note='Trusts the reference model (validated by the unchanged node accepting every model-built block) and ckb-types data structures/hashing (C15). Header-level checks for async deliveries are assumed done by the sender as in the real node.'),
+ 'C02': dict(level='exploration', ref='DESIGN.md §2 C02',
+   technique='property-based testing: transaction-dense block trees on real nodes; oracle = full column scans vs reference-model replay of the main chain (both directions), reader-sampled snapshots, and a linear-replay twin node compared byte for byte',
+   text='At every quiescent point of generated reorg histories the node\'s live-cell, cell-data, tx-location, number<->hash and included-uncle columns are scanned completely and compared with the reference model\'s replay of the main chain, together with tip, epoch, per-block epoch/ext records and the chain root; snapshots sampled concurrently by a reader thread get the same comparison; at the end a second node that only ever saw the final main chain must hold byte-identical columns and block exts.',
+   note='Snapshot instants are sampled, not enumerated. The replay definition is the reference model (validated by the node accepting its blocks).'),
  'C05': dict(level='exploration', ref='DESIGN.md §2 C05',
    technique='metamorphic property-based testing: one-shot script run vs chunked / resumed / signalled runs over generated RV64 programs and repository test binaries, exhaustive split-point sweeps for small programs',
    text='Programs (repository spawn/exec/load binaries driven by generated data, plus generated C programs compiled to RV64 at check time) are run once with an unlimited budget and then under generated chunk schedules, state resumes, complete() and pause/resume/stop signals and budgets around the exact cost; verdict and cycles must agree. Small programs get every split point (and every pair for tiny ones).',
    note='Signal timing is real time (tokio); the oracle is timing-independent. Five genuine defects are tolerated as known findings so the search continues behind them.'),
+ 'C06': dict(level='exploration', ref='DESIGN.md §2 C06',
+   technique='property-based testing: the reference model computes every reward and DAO field independently and the real node must accept them; forward fee ledger, conservation invariant, +-1 mutants, exact-arithmetic differential for DAO withdraw',
+   text='Generated histories with random fees, proposals in blocks and uncles, re-proposals, every commit offset, short epochs with remainders and halving, and NervosDAO deposit / withdraw transactions are built block by block with the model\'s own reward and DAO values (RFC formulas re-implemented in the harness, no repository calculator involved); the node must accept each block and reject every +-1 mutant. A forward ledger (each fee split once between its committer and the earliest proposer in the commit block\'s window) must equal each cellbase, U must equal the recomputed occupied capacity of the live set, and C - S - live - pending stays constant.',
+   note='The DAO script\'s own rules (180-epoch lock) are not exercised: the DAO slot holds always_success so that withdrawals fit short histories; node-level accounting is unchanged by that. One consensus-critical deviation (proposer share of target block 1) is a known finding.'),
  'C07': dict(level='exploration', ref='DESIGN.md §2 C07',
    technique='property-based testing against an exact big-integer model of the RFC 0020 formulas; exhaustive enumeration of compact exponents x sampled mantissas',
    text='Pure arithmetic inputs (epoch statistics incl. degenerate ones, compact encodings, remainders) are evaluated by the code and by an exact arbitrary-precision model written in the harness; bounds, formulas, bookkeeping, issuance sums, compact/difficulty consistency, PoW acceptance and epoch-successor logic are compared.',
